@@ -91,11 +91,15 @@ func (nm *Namer) Name(t *rapid.T, label string, shape Shape) string {
 		case ShUnderscore:
 			s = title(w1) + "_" + title(w2)
 		}
+		if shape == ShAllCaps && rapid.IntRange(0, 3).Draw(t, label+"_initialism") == 0 {
+			// well-known initialisms: case-conversion libraries treat them specially when configured to
+			s = rapid.SampledFrom([]string{"ID", "URL", "IP", "UID", "HTTP", "API", "UUID", "JSON"}).Draw(t, label+"_init")
+		}
 		if try > 20 {
 			s = s + "Q" + fmt.Sprint(len(nm.used))
 		}
 		k := norm(s)
-		if nm.used[k] || reserved[k] || IsKeyword(s) || len(k) < 3 {
+		if nm.used[k] || reserved[k] || IsKeyword(s) || (len(k) < 3 && shape != ShAllCaps) || len(k) < 2 {
 			continue
 		}
 		if shape == ShUpperCamel && (strcase.ToCamel(s) != s || strcase.ToCamel(strcase.ToSnake(s)) != s || strcase.ToLowerCamel(s) == s) {
@@ -129,6 +133,9 @@ type GenCfg struct {
 	WantMatch    bool // force a match field
 	Docs         bool // allow doc strings
 	MetaShare    bool // several fields typed by one fixed-string MetaData entry (and an alias), one of them padded
+	AnyOrder     bool // MetaData blocks may follow the packets that use them
+	// PostProgram edits the drawn program before it is returned (property-specific shapes)
+	PostProgram func(p *Program) `json:"-"`
 }
 
 func (c GenCfg) avoid(tag string) bool { return c.Avoid != nil && c.Avoid[tag] }
@@ -198,7 +205,7 @@ func (g *genState) doc(label string) string {
 	if !g.cfg.Docs || rapid.IntRange(0, 3).Draw(g.t, label+"_hasdoc") != 0 {
 		return ""
 	}
-	docs := []string{"doc", "消息类型", "a b  c", "x,y;z{}", "// not a comment", "'q' \"dq\"", "100% %s"}
+	docs := []string{"doc", "消息类型", "a b  c", "x,y;z{}", "// not a comment", "'q' \"dq\"", "100% %s", "tab\tinside"}
 	if !g.cfg.avoid("doc:multiline") {
 		docs = append(docs, "line1\nline2")
 	}
@@ -246,7 +253,7 @@ func (g *genState) valueField(label string, name string, inInline bool) *Field {
 	}
 	if !g.cfg.avoid("repeat") && rapid.IntRange(0, 2).Draw(g.t, label+"_rep") == 0 {
 		f.Repeat = true
-		if g.cfg.avoid("repeat:" + f.Kind.String()) || (f.Kind == KScalar && g.cfg.avoid("repeat:scalar:"+f.Type)) {
+		if g.cfg.avoid("repeat:"+f.Kind.String()) || (f.Kind == KScalar && g.cfg.avoid("repeat:scalar:"+f.Type)) {
 			f.Repeat = false
 		}
 	}
@@ -304,6 +311,9 @@ func GenProgram(t *rapid.T, cfg GenCfg) *Program {
 		p.Metas = append(p.Metas, mb)
 		g.metas = mb.Entries
 	}
+	if cfg.AnyOrder && len(p.Metas) > 0 && rapid.Bool().Draw(t, "meta_last") {
+		p.MetaLast = true
+	}
 	rootIdx := rapid.IntRange(0, np-1).Draw(t, "root")
 	// packet i may reference packets j != i such that the graph stays acyclic: order by a random rank
 	rank := rapid.Permutation(seq(np)).Draw(t, "rank")
@@ -347,6 +357,9 @@ func GenProgram(t *rapid.T, cfg GenCfg) *Program {
 			}
 		}
 		g.fillPacket(p.Packets[i], fmt.Sprintf("p%d", i), lower)
+	}
+	if cfg.PostProgram != nil {
+		cfg.PostProgram(p)
 	}
 	return p
 }
@@ -467,6 +480,11 @@ func (g *genState) fillPacket(k *Packet, label string, refs []string) {
 				}
 				sf2 := &Field{Kind: KSum, Name: g.fname(label + "_sum2"), Type: rapid.SampledFrom(ts2).Draw(t, label+"_sum2type"), AttrPrefixed: rapid.Bool().Draw(t, label+"_sum2pre")}
 				sf2.Alg = "CK" + strings.ToUpper(sf2.Type)
+				if !cfg.avoid("sum:shared-alg") && rapid.IntRange(0, 2).Draw(t, label+"_sum2shared") == 0 {
+					// one algorithm name on two fields of different width: a registered service has
+					// one result type, so this name is never registered by the drivers
+					sf.Alg, sf2.Alg = "CKMIXED", "CKMIXED"
+				}
 				out = insert(out, rapid.IntRange(0, len(out)).Draw(t, label+"_sum2pos"), sf2)
 			}
 		}
@@ -652,6 +670,16 @@ func (g *genState) matchFields(label string, refs []string) (*Field, *Field) {
 	if strKey {
 		if !cfg.avoid("match:fixedkey") && rapid.Bool().Draw(t, label+"_fixedkey") {
 			key.Kind, key.N = KFixed, rapid.SampledFrom([]int{2, 4, 8}).Draw(t, label+"_keyn")
+			switch rapid.IntRange(0, 3).Draw(t, label+"_keypad") {
+			case 1:
+				if !cfg.avoid("zchar") {
+					key.Z = true
+				}
+			case 2:
+				if !cfg.avoid("pad") && !cfg.avoid("pad:char='\\x00'") {
+					key.Pad = &Pad{Left: rapid.Bool().Draw(t, label+"_keypadleft"), Char: "'\\x00'"}
+				}
+			}
 		} else {
 			key.Kind = KDyn
 		}
@@ -674,7 +702,7 @@ func (g *genState) matchFields(label string, refs []string) (*Field, *Field) {
 		nk := 1
 		if !cfg.avoid("match:list") && rapid.IntRange(0, 2).Draw(t, pl+"_islist") == 0 {
 			pr.List = true
-			nk = rapid.IntRange(1, 7).Draw(t, pl+"_nkeys")
+			nk = rapid.SampledFrom([]int{1, 2, 3, 4, 5, 6, 7, 10, 15}).Draw(t, pl+"_nkeys")
 		}
 		for j := 0; j < nk; j++ {
 			var ks string
@@ -686,7 +714,7 @@ func (g *genState) matchFields(label string, refs []string) (*Field, *Field) {
 					}
 					n := rapid.IntRange(1, maxLen).Draw(t, pl+"_klen")
 					// a fixed-string key must survive trimming: no pad character ('0', blank) in it
-					alphabet := "ABCDEFXYZ019"
+					alphabet := "ABCDEFXYZ019,-.:;"
 					if key.Kind == KFixed {
 						alphabet = "ABCDEFXYZ19"
 					}
@@ -761,11 +789,16 @@ func AddSecondMatch(t *rapid.T, p *Program) {
 
 // ShareInline copies one packet's inline object (same name, same fields) into another packet,
 // when the program has an inline object and a second packet.
-func ShareInline(t *rapid.T, p *Program) bool {
+func ShareInline(t *rapid.T, p *Program) bool { return shareInline(t, p, false) }
+
+// ShareInlineVariant does the same but gives the copy a different layout (one more field).
+func ShareInlineVariant(t *rapid.T, p *Program) bool { return shareInline(t, p, true) }
+
+func shareInline(t *rapid.T, p *Program, variant bool) bool {
 	for i, k := range p.Packets {
 		for _, f := range k.Fields {
-			if f.Kind != KInline {
-				continue
+			if f.Kind != KInline || hasRefs(f.Inline) {
+				continue // copying a reference elsewhere could close a cycle
 			}
 			var others []int
 			for j := range p.Packets {
@@ -785,7 +818,20 @@ func ShareInline(t *rapid.T, p *Program) bool {
 				}
 			}
 			cp.Repeat = false
+			if variant {
+				extra := &Field{Kind: KScalar, Type: "u16", Name: cp.Inline.Name + "Extra"}
+				cp.Inline.Fields = append([]*Field{extra}, cp.Inline.Fields...)
+			}
 			o.Fields = append(o.Fields, cp)
+			return true
+		}
+	}
+	return false
+}
+
+func hasRefs(k *Packet) bool {
+	for _, f := range k.Fields {
+		if f.Kind == KObj || f.Kind == KMatch || (f.Kind == KInline && hasRefs(f.Inline)) {
 			return true
 		}
 	}
